@@ -11,7 +11,7 @@ import (
 // stepBudget is B(n) of DESIGN §2.4.
 func stepBudget(n int) uint64 {
 	m := uint64(n + 64)
-	return 4096 * m * m
+	return 1024 * m * m
 }
 
 type totObs struct {
